@@ -393,3 +393,37 @@ def save_restore_round_trip(ex):
 def zone_id_of_view(ex, view, zi_bv):
     off, _ = ex.mod.field('ace_time::basic::ZoneInfo', 'zoneId')
     return view.load(Ptr(None, zi_bv + off), 4)
+
+
+# ---- manual-zone accessors and mutators (C16: "a manual zone's offset is always standard plus DST offset") ----------------
+def _manual_acc(name, field, ret_bits=16):
+    def post(c):
+        f = tz_fields(c.old, c.this)
+        return [('the-stored-%s-offset' % field, c.result == f[field])]
+    contract('ace_time::TimeZone::%s() const' % name, pure=True, props=['C16'], ensures=post)
+
+
+_manual_acc('getStdOffset', 'std')
+_manual_acc('getDstOffset', 'dst')
+contract('ace_time::TimeZone::isUtc() const', pure=True, props=['C16'],
+         ensures=lambda c: [('manual-with-both-offsets-zero', (c.result == 1) == z3.And(tz_fields(c.old, c.this)['type'] == K_MANUAL,
+                                                                                      tz_fields(c.old, c.this)['std'] == 0, tz_fields(c.old, c.this)['dst'] == 0))])
+contract('ace_time::TimeZone::isDst() const', pure=True, props=['C16'],
+         ensures=lambda c: [('manual-with-a-dst-shift', (c.result == 1) == z3.And(tz_fields(c.old, c.this)['type'] == K_MANUAL, tz_fields(c.old, c.this)['dst'] != 0))])
+
+
+def _setter(name, field, other):
+    def post(c):
+        o, n = tz_fields(c.old, c.this), tz_fields(c.new, c.this)
+        v = c.args[1]
+        return [('manual-zone-takes-the-offset', z3.Implies(o['type'] == K_MANUAL, n[field] == v)),
+                ('other-kinds-unchanged', z3.Implies(o['type'] != K_MANUAL, n[field] == o[field])),
+                # (the offsets share storage with the zone-info / processor pointers of the other kinds: a union)
+                ('nothing-else-changes', z3.And(n[other] == o[other], n['type'] == o['type'],
+                                                z3.Implies(o['type'] != K_MANUAL, z3.And(n['zi'] == o['zi'], n['proc'] == o['proc']))))]
+    contract('ace_time::TimeZone::%s(ace_time::TimeOffset)' % name, props=['C16'], ensures=post,
+             assigns=lambda c: [c.field_addr(c.this, TZ, 'mStdOffsetMinutes' if field == 'std' else 'mDstOffsetMinutes')])
+
+
+_setter('setStdOffset', 'std', 'dst')
+_setter('setDstOffset', 'dst', 'std')
